@@ -158,6 +158,26 @@ fn parse_dgs(p: &[u8]) -> Vec<(Vec<u8>, u16)> {
     out
 }
 
+/// The datagrams of a response, but only if it is structurally complete: every datagram whole, the
+/// last one not announcing another, nothing left over.  C01 speaks about such responses; what the
+/// receive path does with damaged ones is C05's business (no crash, state consistent).
+fn parse_dgs_complete(p: &[u8]) -> Option<Vec<(Vec<u8>, u16)>> {
+    let mut out = Vec::new();
+    let mut pos = 0usize;
+    loop {
+        if p.len() < pos + 12 { return None; }
+        let lf = u16::from_le_bytes([p[pos + 6], p[pos + 7]]);
+        let len = (lf & 0x7ff) as usize;
+        if p.len() < pos + 12 + len { return None; }
+        let data = p[pos + 10..pos + 10 + len].to_vec();
+        let wkc = u16::from_le_bytes([p[pos + 10 + len], p[pos + 11 + len]]);
+        out.push((data, wkc));
+        pos += 12 + len;
+        if lf & 0x8000 == 0 { break; }
+    }
+    if pos == p.len() { Some(out) } else { None }
+}
+
 #[derive(Clone)]
 struct Dg { code: u8, idx: u8, raw: [u8; 4], len: usize, data: Vec<u8> }
 
@@ -639,8 +659,7 @@ impl World {
                 self.obs.extend(bytes.iter().map(|x| *x as i64));
                 // byte-exactness against what the network returned for this request
                 if wrong == 0 {
-                    if let Some(acc) = &self.accepted[i] {
-                        let dgs = parse_dgs(acc);
+                    if let Some(dgs) = self.accepted[i].as_ref().and_then(|acc| parse_dgs_complete(acc)) {
                         match dgs.first() {
                             Some((d, w)) if *d == bytes && *w == p.working_counter() => {}
                             _ => self.oracle.push(format!("routing-bytes: slot {} first_pdu returned data/wkc that differ from the response the network returned", i)),
@@ -671,8 +690,7 @@ impl World {
                 Err(c) => { self.obs.push(2); self.obs.extend(c.iter()); }
             }
         }
-        if let Some(acc) = &self.accepted[i] {
-            let dgs = parse_dgs(acc);
+        if let Some(dgs) = self.accepted[i].as_ref().and_then(|acc| parse_dgs_complete(acc)) {
             let oks: Vec<(Vec<u8>, u16)> = got.iter().filter_map(|g| g.as_ref().ok().cloned()).collect();
             if oks != dgs {
                 self.oracle.push(format!("routing-bytes: slot {} iterator returned {} datagrams that differ from the {} the network returned", i, oks.len(), dgs.len()));
